@@ -57,6 +57,10 @@ def ty_coq(t):
         return "(arr2 Z)"
     if t == "mask2":
         return "(arr2 bool)"
+    if t in ("col", "rowT"):
+        return "(list F)"
+    if t == "MATacc":
+        return "M"
     if t == "nd":
         return "(nd F)"
     if t == "LAM":
@@ -171,6 +175,8 @@ class Fn:
                 return b, "(np_transpose %s)" % c, "MAT"
             if t == "arr2" and e.attr == "T":
                 return b, "(arr2_transpose f0 %s)" % c, "arr2"
+            if t == "col" and e.attr == "T":
+                return b, c, "rowT"
             raise Unsupported("attribute %s" % ast.unparse(e))
         if isinstance(e, ast.IfExp):
             bc, cc, tc = self.expr(e.test, env)
@@ -255,6 +261,15 @@ class Fn:
             v = self.fresh()
             return b + [(v, "np_mask_and %s %s" % (c1, c2))], v, "mask2"
         VEC = ("list", "F")
+        if "np_outer" in self.externs and op is ast.MatMult and (t1, t2) == ("col", "rowT"):
+            return b, "(np_outer %s %s)" % (c1, c2), "MAT"
+        if "np_outer" in self.externs and op is ast.Add and t2 == "MAT" and t1 in ("MAT", "int"):
+            # an int accumulator that meets matrices (0 + M): the int converts to the constant matrix
+            return b, "(np_mat_add %s %s)" % (c1 if t1 == "MAT" else "(np_mat_of_int %s)" % c1, c2), "MAT"
+        if "np_outer" in self.externs and op is ast.Mult and t1 == "int" and t2 == "MAT":
+            return b, "(np_mat_scale (of_int %s) %s)" % (c1, c2), "MAT"
+        if "np_outer" in self.externs and op is ast.Mult and t1 == "F" and t2 == "float":
+            return b, "(fmul %s (of_q %s))" % (c1, c2), "F"
         if "np_matmul" in self.externs and "MAT" in (t1, t2):
             # dense matrices are opaque: their arithmetic is a named BLAS / NumPy oracle
             if op is ast.MatMult and (t1, t2) == ("MAT", "MAT"):
@@ -509,6 +524,18 @@ class Fn:
             b, c, t = self.expr(e.args[0], env)
             if t == "int":
                 return b, "(np_triu_indices %s)" % c, ("tuple", [("list", "int"), ("list", "int")])
+        if isinstance(e.func, ast.Attribute) and e.func.attr == "reshape" and not e.keywords and [ast.unparse(a) for a in e.args] == ["-1", "1"]:
+            b, c, t = self.expr(e.func.value, env)
+            if t == ("list", "F"):
+                return b, c, "col"      # a 1-D array seen as a column; only  c @ c.T  is rendered for columns
+        if fn == "np.mean" and "np_mean_all" in self.externs and len(e.args) == 1 and not e.keywords:
+            b, c, t = self.expr(e.args[0], env)
+            if t == "arr2":
+                return b, "(np_mean_all %s)" % c, "F"
+        if fn == "np.trace" and "np_trace" in self.externs and len(e.args) == 1 and not e.keywords:
+            b, c, t = self.expr(e.args[0], env)
+            if t == "MAT":
+                return b, "(np_trace %s)" % c, "F"
         if isinstance(e.func, ast.Attribute) and e.func.attr == "diagonal" and not e.args and not e.keywords:
             b, c, t = self.expr(e.func.value, env)
             if t == "arr2":
@@ -785,7 +812,9 @@ class Fn:
             return self.wrap(b, 'if %s then\n  %s\n  else Raise "AssertionError"%%string' % (c, nxt(env)))
         if isinstance(s, ast.AugAssign) and isinstance(s.target, ast.Name) and isinstance(s.op, (ast.Add, ast.Sub, ast.Mult)):
             # x op= e  is  x = x op e  for the immutable values (int, float) this applies to
-            if env.get(s.target.id) not in ("int", "F"):
+            # (for a matrix accumulator `m += x` updates in place an array that only this name references - it was created by
+            # the first `0 + x` - so it is the rebinding m = m + x as well)
+            if env.get(s.target.id) not in ("int", "F", "MAT"):
                 raise Unsupported("augmented assignment to a %s" % (env.get(s.target.id),))
             s2 = ast.Assign(targets=[ast.Name(id=s.target.id, ctx=ast.Store())],
                             value=ast.BinOp(left=ast.Name(id=s.target.id, ctx=ast.Load()), op=s.op, right=s.value))
@@ -1052,6 +1081,9 @@ class Fn:
                         # an int accumulator that meets floats in the loop: the initial value converts exactly
                         env2[n] = "F"
                         init[n] = "(of_int %s)" % cname(n)
+                    elif env[n] == "int" and e2[n] == "MAT":
+                        env2[n] = "MAT"
+                        init[n] = "(np_mat_of_int %s)" % cname(n)
                     elif repr(e2[n]) != repr(env[n]):
                         raise Unsupported("loop changes the type of %s" % n)
             if any(repr(env[n]) != repr(env2[n]) for n in state):
@@ -1150,8 +1182,13 @@ TARGETS = {
                 ("x_update_prox", "empirical_covariance"): "MAT", ("x_update_prox", "z_minus_u"): "MAT", ("x_update_prox", "rho"): "F",
                 ("x_update_prox", "return"): ("list", "F"),
                 ("compute_lambda_sum", "lambda_parameter"): "lamv", ("compute_lambda_sum", "return"): "F"}),
-    "cluster_metrics": ("cluster_metrics.py", ["bayesian_information_criterion"],
-                        {("bayesian_information_criterion", "model"):
+    "cluster_metrics": ("cluster_metrics.py", ["bayesian_information_criterion", "calinski_harabasz_index"],
+                        {("calinski_harabasz_index", "stacked_training_data"): "arr2",
+                         ("calinski_harabasz_index", "model"): ("record", "ch_model", {"clusters": ("list", ("record", "ch_cluster", {"size": "int", "member_points": ("list", "int"),
+                                                                              "stacked_data_mean": ("list", "F")}, "cc_", "(ch_cluster F)"))},
+                          "cm_", "(ch_model F)"),
+                         ("calinski_harabasz_index", "return"): "F",
+                         ("bayesian_information_criterion", "model"):
                          ("record", "bic_model",
                           {"arguments": ("record", "bic_args", {"num_clusters": "int"}, "ba_", "bic_args"),
                            "clusters": ("list", ("record", "bic_cluster", {"train_inverse": "MAT", "empirical_covariance": "MAT"},
@@ -1277,8 +1314,15 @@ KERNEL_MODULES = {
                  "  Variable np_log : F -> F.                       (* np.log *)\n"
                  "  Variable np_slogdet_logabs : M -> F.             (* np.linalg.slogdet(.)[1] *)\n"
                  "  Variable np_trace_dot : M -> M -> F.             (* np.trace(np.dot(., .)) *)\n"
-                 "  Variable np_count_above : M -> F -> Z.           (* np.sum(np.abs(.) > t) *)\n"),
-        "externs": {k: ([], None, k, False) for k in ("flit", "flog", "slogdet_logabs", "trace_dot", "count_above")}},
+                 "  Variable np_count_above : M -> F -> Z.           (* np.sum(np.abs(.) > t) *)\n"
+                 "  Variable np_mean_all : arr2 F -> F.              (* np.mean over every entry of a 2-D array *)\n"
+                 "  Variable np_outer : list F -> list F -> M.       (* c @ c.T for a column c (v.reshape(-1, 1)) *)\n"
+                 "  Variable np_mat_of_int : Z -> M.                 (* the int an accumulator starts from, as a matrix (0 + M) *)\n"
+                 "  Variable np_mat_add : M -> M -> M.               (* a + b, elementwise *)\n"
+                 "  Variable np_mat_scale : F -> M -> M.             (* c * a, elementwise *)\n"
+                 "  Variable np_trace : M -> F.                      (* np.trace *)\n"
+                 "  Variable of_q : Q -> F.                          (* a Python float that is an exact quotient of ints, as float64 *)\n"),
+        "externs": {k: ([], None, k, False) for k in ("flit", "flog", "slogdet_logabs", "trace_dot", "count_above", "np_mean_all", "np_outer", "np_trace")}},
 }
 
 HEADER = """(* GENERATED by vcheck/py2coq.py from %(src)s - do not edit.
